@@ -659,6 +659,22 @@ class Model:
                 raise NameError(msg)
             taken.add(name)
 
+    @staticmethod
+    def _check_all_known(
+        names: Iterable[str],
+        container: Mapping[str, object],
+        *,
+        ctx: str,
+        unique: bool = False,
+    ) -> None:
+        """Check that all names are in the container, before a batch edit starts."""
+        seen: set[str] = set()
+        for name in names:
+            if name not in container or (unique and name in seen):
+                msg = f"{name!r} not found in {ctx}"
+                raise KeyError(msg)
+            seen.add(name)
+
     ##########################################################################
     # Parameters - views
     ##########################################################################
@@ -770,6 +786,7 @@ class Model:
             Self: The instance of the model with the added parameters.
 
         """
+        self._check_new_ids(parameters, ctx="parameter")
         for k, v in parameters.items():
             if isinstance(v, Parameter):
                 self.add_parameter(k, v.value, unit=v.unit, source=v.source)
@@ -815,6 +832,7 @@ class Model:
             Self: The instance of the model with the specified parameters removed.
 
         """
+        self._check_all_known(names, self._parameters, ctx="parameters", unique=True)
         for name in names:
             self.remove_parameter(name)
         return self
@@ -878,6 +896,7 @@ class Model:
             Self: The instance of the model with updated parameters.
 
         """
+        self._check_all_known(parameters, self._parameters, ctx="parameters")
         for k, v in parameters.items():
             if isinstance(v, Parameter):
                 self.update_parameter(k, value=v.value, unit=v.unit, source=v.source)
@@ -925,6 +944,7 @@ class Model:
             Self: The instance of the model with scaled parameters.
 
         """
+        self._check_all_known(parameters, self._parameters, ctx="parameters")
         for k, v in parameters.items():
             self.scale_parameter(k, v)
         return self
@@ -1129,6 +1149,7 @@ class Model:
             Self: The instance of the model with the added variables.
 
         """
+        self._check_new_ids(variables, ctx="variable")
         for name, v in variables.items():
             if isinstance(v, Variable):
                 self.add_variable(
@@ -1196,6 +1217,8 @@ class Model:
             Self: The instance of the model with the specified variables removed.
 
         """
+        variables = list(variables)
+        self._check_all_known(variables, self._variables, ctx="variables", unique=True)
         for variable in variables:
             self.remove_variable(
                 name=variable, remove_stoichiometries=remove_stoichiometries
@@ -1254,6 +1277,7 @@ class Model:
             Self: The instance of the model with updated variables.
 
         """
+        self._check_all_known(variables, self._variables, ctx="variables")
         for k, v in variables.items():
             if isinstance(v, Variable):
                 self.update_variable(
